@@ -139,6 +139,68 @@ Theorem C08_result_triple_mixed_refuted :
 Proof. exact result_triple_mixed_refuted. Qed.
 Print Assumptions C08_result_triple_mixed_refuted.
 
+(* appends above the size of the user-space buffer: a piece reaches data.bin in several write system calls (whole
+   buffer blocks first, the rest when the stream is flushed); between them the file holds a part of the piece, possibly
+   ending inside a record.  For EVERY way the pieces are cut: a crash at any point is an error or the complete new catalog,
+   and an uninterrupted run leaves the catalog of the unbuffered creation (C08_create_complete applies to it) *)
+Theorem C08_crash_safe_create_buffered : forall (bps : list bpiece) (s0 : fs) (k : nat),
+  s0 PIds = None ->
+  let ops := ops_bcreate bps in
+  In (recover_cat true (apply (firstn k ops) s0)) [Err; recover_cat true (apply ops s0)].
+Proof. exact crash_safe_bcreate. Qed.
+Print Assumptions C08_crash_safe_create_buffered.
+
+Theorem C08_create_buffered_final : forall (strict : bool) (bps : list bpiece) (s0 : fs),
+  recover_cat strict (apply (ops_bcreate bps) s0) = recover_cat strict (apply (ops_create (unbuf bps)) s0).
+Proof. exact bcreate_final. Qed.
+Print Assumptions C08_create_buffered_final.
+
+Theorem C08_create_buffered_complete : forall (strict : bool) (bps : list bpiece) (s0 : fs),
+  bps <> [] -> (forall bp, In bp bps -> snd (fst bp) <> []) ->
+  recover_cat strict (apply (ops_bcreate bps) s0)
+  = Ok (map (fun i => (i, recs_for (unbuf bps) i)) (created_ids (unbuf bps))).
+Proof. exact bcreate_complete. Qed.
+Print Assumptions C08_create_buffered_complete.
+
+Theorem C08_crash_safe_overwrite_buffered : forall (l : list (path * content)) (order : list path) (bps : list bpiece) (k : nat),
+  wf_cat (fs_of l) -> valid_order_b l order = true ->
+  let s0 := fs_of l in
+  let ops := ops_boverwrite order bps in
+  In (recover_cat true (apply (firstn k ops) s0)) [Err; recover_cat true s0; recover_cat true (apply ops s0)].
+Proof. exact crash_safe_boverwrite. Qed.
+Print Assumptions C08_crash_safe_overwrite_buffered.
+
+(* the reason, for any writer: whatever system calls precede the marker, as long as none of them touches patch_ids.bin *)
+Theorem C08_crash_safe_marker_last : forall (body : list fop) (ps : list piece) (s0 : fs) (k : nat),
+  Forall (fun o => op_path o <> PIds) body -> s0 PIds = None ->
+  let ops := body ++ ops_create_ids ps ++ ops_meta_all (created_ids ps) in
+  In (recover_cat true (apply (firstn k ops) s0)) [Err; recover_cat true (apply ops s0)].
+Proof. exact crash_safe_marker_last. Qed.
+Print Assumptions C08_crash_safe_marker_last.
+
+(* pieces that are not cut give the operation list of the unbuffered model *)
+Theorem C08_buffered_nocuts : forall (ps : list piece) (acc : list piece),
+  ops_bpieces acc (map (fun pc => (pc, [])) ps) = ops_pieces acc ps.
+Proof. exact ops_bpieces_nocuts. Qed.
+Print Assumptions C08_buffered_nocuts.
+
+(* the marker written after all system calls of the body is that safe order; written while the tail of a patch's data
+   is still in a user-space buffer it is not: the crash right after the marker opens without error with records missing *)
+Theorem C08_marker_after_body : forall bps : list bpiece,
+  ops_bcreate_early (length (ops_bcreate_body bps)) bps = ops_bcreate bps.
+Proof. exact bcreate_early_all. Qed.
+Print Assumptions C08_marker_after_body.
+
+Theorem C08_marker_before_flush_refuted :
+  let ops := ops_bcreate_early 10 bps_demo in
+  length (ops_bcreate_body bps_demo) = 12 /\
+  recover_cat true (apply ops empty_fs) = Ok [(0, [0; 1; 2; 4; 5]); (1, [3])] /\
+  recover_cat true (apply (ops_bcreate bps_demo) empty_fs) = Ok [(0, [0; 1; 2; 4; 5]); (1, [3])] /\
+  recover_cat true (apply (firstn 12 ops) empty_fs) = Ok [(0, [0; 1; 2]); (1, [3])] /\
+  recover_cat true (apply (firstn 13 ops) empty_fs) = Err.
+Proof. exact marker_before_flush_refuted. Qed.
+Print Assumptions C08_marker_before_flush_refuted.
+
 (* non-vacuity: overwriting a two-patch catalog (with a tree cache) by other data; rmtree removes binning,
    meta.yml, trees.pkl of patch 0 first (still the old catalog), then its data (error), ...; the new catalog
    is an error until patch_ids.bin is written and while a meta.yml is empty.  With the pinned id-list check
@@ -154,4 +216,16 @@ Example C08_concrete :
   map (fun k => w_class true w k 0) (seq 0 27) =
     [2; 2; 2; 2; 0; 0; 0; 0; 0; 0; 0; 0; 0; 0; 0; 0; 0; 0; 0; 0; 0; 0; 3; 0; 3; 0; 3] /\
   w_class false w 21 0 = 1.
+Proof. vm_compute. repeat split. Qed.
+
+(* non-vacuity of the buffered form: records in run-length notation (piece j of the input = its records, all written
+   j); patch 0 gets 5 + 3 records, the first piece in three system calls (2 complete records; 4 and a part of the
+   fifth; all 5), patch 1 gets 4 records in two.  Every crash point before the marker is an error, the marker makes
+   the complete catalog visible at once (class 3), an empty meta.yml is an error again. *)
+Example C08_concrete_buffered :
+  let bps := [((0, rl [(0, 5)]), [(2, false); (4, true)]); ((1, rl [(1, 4)]), [(3, false)]); ((0, rl [(2, 3)]), [])] in
+  let w := WCreateB bps in
+  c08_hyp w = 0 /\ length (w_ops true w) = 19 /\
+  map (fun k => w_class true w k 0) (seq 0 20) = [0; 0; 0; 0; 0; 0; 0; 0; 0; 0; 0; 0; 0; 0; 0; 3; 0; 3; 0; 3] /\
+  recover_cat true (apply (w_ops true w) empty_fs) = Ok [(0, [0; 0; 0; 0; 0; 2; 2; 2]); (1, [1; 1; 1; 1])].
 Proof. vm_compute. repeat split. Qed.
